@@ -123,7 +123,7 @@ func (s *DiskKeyIndex) findAt(off uint64) (*proto.IndexEntry, error) {
 
 	record := &proto.IndexEntry{}
 	_, _, err := s.reader.SeekNext(record, off)
-	if len(s.offsetCache) < s.offsetCacheMaxSize {
+	if err == nil && len(s.offsetCache) < s.offsetCacheMaxSize {
 		s.offsetCache[off] = record
 	}
 
